@@ -11,7 +11,8 @@ DEPS = {'C01': ['classes', 'simplify', 'shapes', 'lookup', 'values', 'insert'],
         'C10': ['classes', 'valid'],
         'C11': ['stack', 'stackadd'],
         'C12': ['stack', 'stackadd'],
-        'C13': ['classes', 'simplify', 'shapes']}
+        'C13': ['classes', 'simplify', 'shapes'],
+        'C20': ['header']}
 
 GROUP_THEOREMS = {
     'classes': ['get_valid_classes_is_model', 'get_valid_classes_refuses', 'get_multiplicity_is_model'],
@@ -28,6 +29,7 @@ GROUP_THEOREMS = {
                'slice_step_is_model', 'get_changed_class_no_slice_dim_is_model'],
     'insert': ['change_class_is_model', 'reclassify_is_model', 'insert_slice_is_model', 'insert_non_slice_is_model', 'insert_sample_is_model'],
     'subset': ['copy_slice_is_model', 'copy_sample_is_model'],
+    'header': ['header_slice_times_is_model'],
     'stackadd': ['chk_congruent_is_model', 'add_dcm_is_model'],
     'data': ['file_idx_is_model', 'file_idx_volume_is_model', 'get_data_trim_is_model'],
 }
